@@ -195,15 +195,36 @@ pub fn run() -> i32 {
     let sds = seeds(seed);
     ctx.rule = format!("positive product: {} seeds (value alphabet + RFC 8032 test seeds) x every message length 0..={} (+1023,1024,1025,4096 thorough) x 4 content classes x {{pure detached, pure combined, pre-hashed incremental}} x {{classic, SigningKeyPair, IncrementalSigner}}: bytes == libsodium, deterministic, verifies everywhere. negative single-fault enumeration on base signatures (3 seeds x lengths {{0,1,32,65}} x pure/pre-hashed): every bit of message, signature and public key; S+kL for every k with S+kL < 2^256; raw S in {{L-1,L,L+1,2^252,2^256-1}}; R x A over the complete small-order encoding table (14 x 14) x S in {{0,1,r}}; non-canonical y in [p,p+18] as R and as A; mode cross-overs; combined form truncated to every length < 64; accept/reject must equal libsodium and be reject for every mutation; non-trivial = case executed in both implementations", sds.len(), maxlen);
     ctx.assume("libsodium 1.0.18 (strict, non-COMPAT) is the reference verifier");
+    ctx.assume("reference 2: pure-Python RFC 8032 signing (pure and pre-hashed) and strict verification over a dumped sub-corpus (ref/curve_check.py), run by bin/check after this binary");
 
     let mut lens: Vec<usize> = (0..=maxlen).collect();
     if ctx.tier == Tier::Thorough {
         lens.extend([1023, 1024, 1025, 4096]);
     }
+    let corpus_path = format!("{}/logs/c06_corpus.jsonl", VERIF_ROOT);
+    let _ = std::fs::create_dir_all(format!("{}/logs", VERIF_ROOT));
+    let corpus = std::sync::Mutex::new(std::io::BufWriter::new(std::fs::File::create(&corpus_path).expect("corpus")));
+    let dump = |v: Value| {
+        use std::io::Write;
+        let mut g = corpus.lock().unwrap();
+        let _ = writeln!(g, "{}", v);
+    };
     let units: Vec<(usize, usize)> = (0..sds.len()).flat_map(|s| (0..lens.len()).map(move |l| (s, l))).collect();
     let st = par_units(&units, |&(si, li), st| {
         for ci in 0..4 {
             let m = cval(seed, ci, lens[li]);
+            if ci == 3 && (lens[li] % 16 == 1 || lens[li] < 4) {
+                // dryoc's own outputs for the independent Python RFC 8032 reference
+                let (pk, sk) = crypto_sign_seed_keypair(&sds[si]);
+                let mut sig = [0u8; 64];
+                let _ = crypto_sign_detached(&mut sig, &m, &sk);
+                dump(json!({"p": "ed25519-sign", "seed": hx(&sds[si]), "m": hx(&m), "ph": false, "pk": hx(&pk), "sig": hx(&sig)}));
+                let mut st2 = crypto_sign_init();
+                crypto_sign_update(&mut st2, &m);
+                let mut psig = [0u8; 64];
+                let _ = crypto_sign_final_create(st2, &mut psig, &sk);
+                dump(json!({"p": "ed25519-sign", "seed": hx(&sds[si]), "m": hx(&m), "ph": true, "pk": hx(&pk), "sig": hx(&psig)}));
+            }
             let r = check_positive(&sds[si], &m);
             st.eval(&(si, li, ci), true, if r.is_none() { "sign==libsodium" } else { "sign-disagrees" });
             if let Some((class, d)) = r {
@@ -225,8 +246,16 @@ pub fn run() -> i32 {
         let (pk, sk) = sodium::sign_seed_keypair(&base_seeds[si]);
         let m = cval(seed, 3, base_lens[li]);
         let sig = if ph { sodium::sign_ph_create(&[&m], &sk) } else { sodium::sign_detached(&m, &sk) };
+        let dumpn = std::cell::Cell::new(0usize);
         let mut go = |kind: String, sig: &Sig, m: &[u8], pk: &Pk, must_reject: bool, st: &mut Stats| {
             let (oc, f) = check_negative(&kind, ph, sig, m, pk, must_reject);
+            dumpn.set(dumpn.get() + 1);
+            let structural = !(kind.starts_with("msg-bit") || kind.starts_with("sig-bit") || kind.starts_with("pk-bit") || kind.starts_with("small-order(R#"));
+            if li == 1 && (structural || dumpn.get() % 24 == 0 || (si == 0 && kind.starts_with("small-order(R#") && dumpn.get() % 3 == 0)) {
+                if let Ok(acc) = if ph { dry_verify_ph(sig, m, pk) } else { dry_verify_pure(sig, m, pk) } {
+                    dump(json!({"p": "ed25519-verify", "kind": kind, "pk": hx(pk), "m": hx(m), "sig": hx(sig), "ph": ph, "accepted": acc}));
+                }
+            }
             st.eval(&(si, li, ph, &kind), true, &oc);
             if let Some(what) = f {
                 let class = kind.split(|c: char| c == '[' || c == '(').next().unwrap_or("").to_string();
@@ -337,6 +366,12 @@ pub fn run() -> i32 {
         }
     });
     ctx.absorb("negative", st);
+    drop(dump);
+    {
+        use std::io::Write;
+        corpus.into_inner().unwrap().flush().unwrap();
+    }
+    ctx.note("second_reference_corpus", json!(corpus_path));
     ctx.require_outcome("sign==libsodium");
     ctx.require_outcome("both-reject");
     ctx.require_outcome("both-accept");
